@@ -7,6 +7,7 @@ import Driver.C03
 import Driver.C07
 import Driver.C08
 import Driver.C18
+import Driver.C16
 open Driver
 
 def handle (line : String) : String :=
@@ -23,6 +24,7 @@ def handle (line : String) : String :=
   | "c12" :: args => c12 args
   | "c14" :: args => c10 args
   | "c14v" :: args => c14v args
+  | "c16" :: args => c16 args
   | _ => "bad-op"
 
 partial def loop (h : IO.FS.Stream) (out : IO.FS.Stream) : IO Unit := do
